@@ -513,3 +513,74 @@ func TestGovcBoundedSQLiteIdempotentReopen(t *testing.T) {
 	}
 	fmt.Printf("GOVC-BOUNDED evaluations=%d\n", evals)
 }
+
+// TestGovcBoundedSQLiteBoundaryKinds (C06): a second, small universe for what the first one does not contain - the
+// boundaries of the kind classes (0, 3, 9999/10000, 19999/20000, 29999/30000, 39999/40000), two versions of every
+// replaceable/addressable address, and tag names in upper case (admitted by the filter grammar, C11). All histories
+// of up to 2 insertions with both batch splits, queried by the match-everything filter, per kind and per tag.
+func TestGovcBoundedSQLiteBoundaryKinds(t *testing.T) {
+	ctx := context.Background()
+	kinds := []int64{0, 3, 1, 4, 9999, 10000, 19999, 20000, 29999, 30000, 39999, 40000}
+	var u []*mocrelay.Event
+	n := 100
+	for _, k := range kinds {
+		for v := int64(1); v <= 2; v++ {
+			n++
+			tags := []mocrelay.Tag{{"E", "up"}}
+			if govcClassOf(k) == 3 {
+				tags = append(tags, mocrelay.Tag{"d", "k"})
+			}
+			if v == 2 {
+				tags = append(tags, mocrelay.Tag{"P", "Up2"})
+			}
+			u = append(u, govcEv(n, govcAlice, k, v, tags...))
+		}
+	}
+	i64 := func(v int64) *int64 { return &v }
+	lists := [][]*mocrelay.ReqFilter{
+		{{}},
+		{{Kinds: kinds}},
+		{{Kinds: []int64{0, 3}}},
+		{{Tags: map[string][]string{"E": {"up"}}}},
+		{{Tags: map[string][]string{"P": {"Up2"}}, Limit: i64(3)}},
+		{{Tags: map[string][]string{"e": {"up"}}}},
+		{{Kinds: []int64{39999, 40000, 19999, 20000}}, {Kinds: []int64{0}, Limit: i64(1)}},
+	}
+	evals, hists := 0, 0
+	var histories [][]*mocrelay.Event
+	for i := range u {
+		histories = append(histories, []*mocrelay.Event{u[i]})
+		for j := range u {
+			histories = append(histories, []*mocrelay.Event{u[i], u[j]})
+		}
+	}
+	for _, h := range histories {
+		for _, batches := range govcSplits(h) {
+			hists++
+			db := govcMem(t)
+			var flat []*mocrelay.Event
+			for bi, b := range batches {
+				if err := insertEvents(ctx, db, 7, b); err != nil {
+					fmt.Printf("GOVC-BOUNDED-FAIL history=%s: insert failed: %v\n", govcName(batches), err)
+					t.FailNow()
+				}
+				flat = append(flat, b...)
+				live := govcLive(flat)
+				for _, fl := range lists {
+					evals++
+					got, err := queryEvent(ctx, db, 7, fl, NoLimit)
+					if err != nil {
+						fmt.Printf("GOVC-BOUNDED-FAIL history=%s after batch %d filters=%s: query failed: %v\n", govcName(batches), bi+1, govcFmtFilters(fl), err)
+						t.FailNow()
+					}
+					if msg := govcCheckAnswer(live, fl, got); msg != "" {
+						fmt.Printf("GOVC-BOUNDED-FAIL history=%s after batch %d filters=%s: %s\n", govcName(batches), bi+1, govcFmtFilters(fl), msg)
+						t.FailNow()
+					}
+				}
+			}
+			db.Close()
+		}
+	}
+	fmt.Printf("GOVC-BOUNDED evaluations=%d histories=%d\n", evals, hists)
+}
